@@ -35,6 +35,8 @@ var gvcAPIScenarios = []gvcAPIScenario{
 	{"elision-needs-backtracking", "@@\n@@\n-foo(..., 1)\n+bar(..., 1)\n", "package a\n\nfunc g() { foo(1, 2, 1) }\n", true},
 	{"same-path-imported-twice", "@@\n@@\n import \"x/y\"\n\n-y.Foo()\n+y.Bar()\n", "package a\n\nimport (\n\ta \"x/y\"\n\t\"x/y\"\n)\n\nfunc g() { y.Foo(); a.Foo() }\n", true},
 	{"added-import-and-top-level-decl", "@@\n@@\n+import \"fmt\"\n\n-func hello() {\n-  println(\"hi\")\n-}\n+func hello() {\n+  fmt.Println(\"hi\")\n+}\n", "package a\n\nvar before = 1\n\nfunc hello() {\n\tprintln(\"hi\")\n}\n\nfunc other() {}\n", true},
+	{"elision-across-list-kinds", "@@\n@@\n-foo(...)\n+bar(func(...) {})\n", "package a\n\nfunc g() { foo(1, 2) }\n", true},
+	{"array-length-elision-on-plus-line", "@@\nvar x expression\n@@\n-foo(x)\n+[...]int{x}\n", "package a\n\nvar _ = foo(1)\n", true},
 	{"elision-both-sides", "@@\n@@\n func f() {\n   ...\n-  foo()\n+  bar()\n+  baz()\n   ...\n }\n", "package a\n\nfunc f() {\n\ta()\n\tfoo()\n\tb()\n\tc()\n}\n", true},
 }
 
